@@ -140,3 +140,125 @@ Proof.
   destruct (rctx s3 r); recs; rewrite Hs, Hr; repeat split; intros; rewrite ?upd_same, ?upd_other by assumption; reflexivity.
 Qed.
 Print Assumptions C02_imul_effect.
+
+(* ============================ kernel II: gene bookkeeping (coq/theories/Genes) ============================
+   model.genes, reaction._genes, gene._reaction, gene._model, gene identifiers and rules under
+   gene_reaction_rule / gpr setters, add_reactions, remove_reactions(remove_orphans), remove_genes,
+   rename_genes and repair.  The names of the two kernels overlap, hence the module.                        *)
+From Cobra.Genes Require Model Inv Proofs Effects Examples.
+Module GenesKernel.
+Import Cobra.Genes.Model Cobra.Genes.Inv Cobra.Genes.Proofs Cobra.Genes.Effects Cobra.Genes.Examples.
+
+(* the gene clauses of the property, spelled out *)
+Theorem C02_genes_meaning : forall s, GInv s ->
+  (forall r g, rin s r = true -> In g (rgenes s r) ->
+     In g (glist s) /\ gback s g r = true /\ gmod s g = true /\ lookup s (gid s g) = Some g) /\
+  (forall g r, In g (glist s) -> gback s g r = true -> rin s r = true /\ In g (rgenes s r)) /\
+  (forall r, rin s r = true -> forall i, In i (map (gid s) (rgenes s r)) <-> In i (genes_of (rule s r))) /\
+  NoDup (map (gid s) (glist s)) /\
+  (forall g, In g (glist s) -> gmod s g = true /\ lookup s (gid s g) = Some g).
+Proof. exact GInv_meaning. Qed.
+Print Assumptions C02_genes_meaning.
+
+Theorem C02_genes_init : forall rs, GInv (init rs).
+Proof. exact init_GInv. Qed.
+Print Assumptions C02_genes_init.
+
+Theorem C02_genes_step : forall s o, GInv s -> op_ok s o -> GInv (fst (step s o)).
+Proof. exact step_GInv. Qed.
+Print Assumptions C02_genes_step.
+
+Theorem C02_genes_history : forall ops rs, Proofs.ok_run (init rs) ops -> GInv (run ops (init rs)).
+Proof. intros ops rs H. apply run_GInv; [apply init_GInv|exact H]. Qed.
+Print Assumptions C02_genes_history.
+
+Theorem C02_genes_universe : forall s o, rids (fst (step s o)) = rids s.
+Proof. exact step_rids. Qed.
+Print Assumptions C02_genes_universe.
+
+(* non-vacuity: a history using every operation (merging renames, unknown keys, gene removal that removes
+   no / some reactions, orphan removal, an empty rule, repair) meets the conditions and ends non-trivially *)
+Example C02_genes_history_nonvacuous : Proofs.ok_run (init [0; 1; 2]) hist /\
+  (let s := run hist (init [0; 1; 2]) in
+   map (gid s) (glist s) = [5; 3] /\ map (rin s) [0; 1; 2] = [true; true; true] /\
+   rule s 0 = Some (TBool true [g 5; g 5]) /\ map (gid s) (rgenes s 0) = [5]).
+Proof. exact (conj hist_ok hist_nontrivial). Qed.
+Print Assumptions C02_genes_history_nonvacuous.
+
+(* rename_genes as implemented breaks the invariant when a value of the dictionary is also another key
+   (model and implementation agree on this: known finding C02-rename-genes-chain) *)
+Theorem C02_genes_rename_chain_refuted :
+  GInv swap_state /\ NoDup (keys [(0, 1); (1, 0)]) /\ ~ GInv (rename_genes [(0, 1); (1, 0)] swap_state).
+Proof. exact rename_swap_refuted. Qed.
+Print Assumptions C02_genes_rename_chain_refuted.
+
+(* the proposed repair (fixes/rename-genes-chain.patch: a gene marked for removal goes only if no reaction lists it
+   after the repair) keeps the invariant for every dictionary *)
+Theorem C02_genes_rename_fixed : forall d s, GInv s -> GInv (rename_genes_fixed d s).
+Proof. exact rename_genes_fixed_inv. Qed.
+Print Assumptions C02_genes_rename_fixed.
+
+(* ---- documented effect of each gene edit, and nothing else ---- *)
+Theorem C02_genes_set_rule_effect : forall r t s, GInv s ->
+  let s' := set_rule r t s in
+  rule s' = upd (rule s) r t /\ rin s' = rin s /\
+  (forall r', r' <> r -> rgenes s' r' = rgenes s r') /\
+  (forall g r', In g (glist s) -> r' <> r -> gback s' g r' = gback s g r') /\
+  (forall g, In g (glist s) -> In g (glist s') /\ gid s' g = gid s g) /\
+  (forall g, In g (glist s') -> In g (glist s) \/ nextg s <= g) /\
+  (rin s r = false -> glist s' = glist s).
+Proof. exact set_rule_effect. Qed.
+Print Assumptions C02_genes_set_rule_effect.
+
+Theorem C02_genes_add_reactions_effect : forall r s, GInv s -> In r (rids s) -> rin s r = false ->
+  let s' := add_rxn r s in
+  rin s' = upd (rin s) r true /\ rule s' = rule s /\
+  (forall r', r' <> r -> rgenes s' r' = rgenes s r') /\
+  (forall g r', In g (glist s) -> r' <> r -> gback s' g r' = gback s g r') /\
+  (forall g, In g (glist s) -> In g (glist s') /\ gid s' g = gid s g) /\
+  (forall g, In g (glist s') -> In g (glist s) \/ nextg s <= g).
+Proof. exact add_rxn_effect. Qed.
+Print Assumptions C02_genes_add_reactions_effect.
+
+Theorem C02_genes_remove_reactions_effect : forall r orph s, GInv s -> rin s r = true ->
+  let s' := remove_rxn r orph s in
+  (forall r', rin s' r' = rin s r' && negb (r' =? r)) /\ rule s' = rule s /\ rgenes s' = rgenes s /\ gid s' = gid s /\
+  (forall g, In g (glist s') -> In g (glist s)) /\
+  (forall g, In g (glist s) -> In g (glist s') \/ (orph = true /\ In g (rgenes s r))) /\
+  GInv s'.
+Proof. exact remove_rxn_effect. Qed.
+Print Assumptions C02_genes_remove_reactions_effect.
+
+Theorem C02_genes_remove_genes_effect : forall l rr s,
+  (lookup_all s l = None -> remove_genes l rr s = (s, RaiseKeyError)) /\
+  (forall gs, GInv s -> lookup_all s l = Some gs ->
+     let K := fun i => memz i l in
+     let s' := fst (remove_genes l rr s) in
+     snd (remove_genes l rr s) = Ok /\
+     (forall r, rin s' r = rin s r && negb (memz r (filter (is_target s K rr) (model_rxns s)))) /\
+     (forall r, rule s' r = if memz r (filter (is_revisit s K rr) (model_rxns s)) then remove_rule K (rule s r) else rule s r) /\
+     (forall g, In g gs -> ~ In g (glist s')) /\
+     (forall g, In g (glist s) -> ~ In g gs -> In g (glist s') /\ gid s' g = gid s g)).
+Proof.
+  intros l rr s. split; [apply remove_genes_unknown|]. intros gs H1 H2. exact (remove_genes_effect l rr s gs H1 H2).
+Qed.
+Print Assumptions C02_genes_remove_genes_effect.
+
+Theorem C02_genes_rename_genes_effect : forall d s, GInv s -> NoDup (keys d) -> no_chain d = true ->
+  let s' := rename_genes d s in
+  rin s' = rin s /\
+  (forall r, rin s r = true -> rule s' r = rename_rule d (rule s r)) /\
+  (forall r, rin s r = false -> rule s' r = rule s r) /\
+  GInv s'.
+Proof.
+  intros d s H1 H2 H3. destruct (rename_genes_effect d s H1 H2 H3) as [A [B C]].
+  split; [exact A|]. split; [exact B|]. split; [exact C|]. exact (rename_genes_inv d s H1 H2 H3).
+Qed.
+Print Assumptions C02_genes_rename_genes_effect.
+
+Theorem C02_genes_repair_effect : forall s, GInv s ->
+  rin (repair s) = rin s /\ rule (repair s) = rule s /\
+  (forall g, In g (glist s) -> In g (glist (repair s)) /\ gid (repair s) g = gid s g).
+Proof. exact repair_effect. Qed.
+Print Assumptions C02_genes_repair_effect.
+End GenesKernel.
